@@ -168,9 +168,15 @@ def run_transform(ctx, tname):
                small_scale=meta['kind'] == 'small', meas=str(meta['meas']), **{k: params[k] for k in params})
     # whole-number dissimilarities (ordinal judgements, counts) are often stored with an integer dtype: the transform
     # of the same numbers must not depend on how they are stored
+    # single-precision storage (with missing entries) for the rank transform: ranks do not depend on the width of the
+    # floats -- the reference ranks the values as they are stored
+    f32 = bool(tname == 'rank' and nan and rng.integers(2))
+    if f32:
+        v = v.astype(np.float32).astype(float)
     int_storage = bool(not nan and np.all(v == np.round(v)) and np.all(np.abs(v) < 2 ** 40) and rng.integers(2))
     sig['int_storage'] = int_storage
-    rd = build(v.astype(np.int8 if meta['kind'] == 'byte_range' else np.int64) if int_storage else v, meta)
+    rd = build(v.astype(np.int8 if meta['kind'] == 'byte_range' else np.int64) if int_storage else
+               (v.astype(np.float32) if f32 else v), meta)
     wit = lambda **k: dict(transform=tname, v=v, params=params, measure=meta['meas'], int_storage=int_storage, **k)  # noqa: E731
     if tname == 'rank':
         call = lambda: T.rank_transform(rd, **params)  # noqa: E731
